@@ -70,9 +70,25 @@ def oracle(c, op, out, before, after, metrics_before):
     return fails
 
 
+def A(text, key="A", folded=False):
+    return dict(op="card.add", folded=folded, items=[[key, text]])
+
+
+NEW, SAVE, RENDER, TOC = dict(op="card.new"), dict(op="card.save"), dict(op="card.render"), dict(op="card.toc")
+# saves to one path whose previous content differs from the new text in little or nothing (line endings, trailing newline, nothing at all)
+SCENARIOS = [
+    [NEW, A("l1\r\nl2"), SAVE, A("l1\nl2"), SAVE, A("l1\rl2"), SAVE, A("l1\nl2"), SAVE, RENDER],
+    [NEW, A("x\r\n"), SAVE],
+    [NEW, A("x\n"), SAVE, A("x"), SAVE, A("x\r"), SAVE],
+    [NEW, A("same"), SAVE, SAVE, A("same", folded=True), SAVE, dict(op="card.set_folded", key="A", value=False), SAVE],
+    [NEW, A("t", key="X"), A("u", key="X\\/Y"), A("v", key="X/Z"), dict(op="card.set_visible", key="X", value=False), RENDER, TOC, SAVE],
+    [NEW, A("t", key="a\\/b/c"), A("u", key="a"), dict(op="card.set_folded", key="a", value=True), RENDER, TOC, SAVE],
+]
+
+
 def run(ctx):
     cardcheck.run_card_property(ctx, area="card.render", required=REQUIRED, weights=WEIGHTS, view=view,
-                                oracle=oracle, quick=(250, 30), thorough=(8000, 60))
+                                oracle=oracle, quick=(250, 30), thorough=(8000, 60), scenarios=SCENARIOS)
 
 
 def replay(rep):
